@@ -38,7 +38,6 @@ structure F where
   obsIndex : Obs → Option Sid := fun _ => none      -- `observerToSession`
   nextObs : Obs := 1                                 -- `nextObserverId`
   data : Sid → Option (Nat × Bool) := fun _ => none -- `sessionData[sid]` = (tag, has a cleanup function)
-  pending : List Sid := []                           -- `pendingConnects` (connectSync in flight: the close is swallowed)
   inside : List (Where × Act) := []
 
 def updL (f : Nat → List Obs) (k : Nat) (v : List Obs) : Nat → List Obs := fun x => if x = k then v else f x
@@ -113,10 +112,9 @@ def cleanupPart (sid : Sid) (f : F) : F × List Out :=
       (r.1, Out.cleanup sid tag :: r.2)
     else (f, [])
 
-/-- mirrors the `cbs.onClose` lambda of Transport::Impl::setupEngineCallbacks (step 1: a close that answers a pending
-connectSync is swallowed; step 6, the receiveSync tombstone, is C03) -/
+/-- mirrors the `cbs.onClose` lambda of Transport::Impl::setupEngineCallbacks (step 1, a close that answers a pending
+connectSync is swallowed, is C04's `pendingConnects`; step 6, the receiveSync tombstone, is C03: neither is modelled here) -/
 def closeFan (sid : Sid) (f : F) : F × List Out :=
-  if sid ∈ f.pending then ({ f with pending := f.pending.filter (· != sid) }, []) else
   let g := globalPart sid f
   let n := observerPart sid g.1
   let c := cleanupPart sid n.1
